@@ -285,11 +285,13 @@ class Expander:
         self.prog, self.fn = prog, fn
         # locals (references included) bound once and never assigned afterwards
         from ..callgraph import node_writes
-        inits, assigned = {}, set()
+        inits, assigned, refs = {}, set(), set()
         for i in fn.all("decl"):
             for v in fn.nodes[i].get("vars", []):
                 if "init" in v:
                     inits[v["decl"]] = v["init"]
+                    if v.get("isref"):
+                        refs.add(v["decl"])      # a reference is bound once, whatever is done through it
         for i, n in enumerate(fn.nodes):
             tgt = None
             if n["k"] == "bin" and n["op"] in ("=", "+=", "-=", "*=", "/=", "|=", "&="):
@@ -313,7 +315,7 @@ class Expander:
                 t = fn.var_token(tgt)
                 if t and t.startswith("L:"):
                     assigned.add(t[2:])
-        self.single = {d: n for d, n in inits.items() if d not in assigned}
+        self.single = {d: n for d, n in inits.items() if d not in assigned or d in refs}
         self.loopvars = {}
         for i in fn.all("rangefor"):
             n = fn.nodes[i]
@@ -323,6 +325,18 @@ class Expander:
                     self.loopvars[v["decl"]] = n["range"]
                     for b in v.get("bindings", []):
                         self.loopvars[b] = n["range"]
+        # iterator variables of classic for loops: for (auto it = C.begin(); it != C.end(); ++it)
+        self.itervars = {}
+        for i in fn.all("for"):
+            n = fn.nodes[i]
+            if "init" not in n or fn.nodes[n["init"]]["k"] != "decl":
+                continue
+            for v in fn.nodes[n["init"]].get("vars", []):
+                if "init" not in v:
+                    continue
+                c = fn.nodes[fn.strip(v["init"])]
+                if c["k"] == "call" and c.get("cname") in ("begin", "cbegin") and "recv" in c:
+                    self.itervars[v["decl"]] = c["recv"]
         self.params = {p["decl"]: p["name"] for p in fn.params}
         self.parent = prog.fns.get(fn.d.get("parentfn")) if fn.d.get("parentfn") else None
         self._pexp = None
@@ -354,16 +368,17 @@ class Expander:
         if d in self.loopvars:
             self._active.add(d)
             try:
-                return "elem(%s)" % self.fn.text(self.loopvars[d], 0, self._cb)
+                return "elem(%s)" % self.fn.text(self.loopvars[d], 0, self._cb, self._ncb)
             finally:
                 self._active.discard(d)
         if d in self.single:
             init = self.single[d]
-            if any(self.fn.nodes[x]["k"] == "lambda" for x in self.fn.walk(init)):
+            top = self.fn.nodes[self.fn.strip(init)]
+            if top["k"] == "lambda" or "(lambda at" in top.get("type", "")[:60]:
                 return name
             self._active.add(d)
             try:
-                return self.fn.text(init, 0, self._cb)
+                return self.fn.text(init, 0, self._cb, self._ncb)
             finally:
                 self._active.discard(d)
         _, v = self.fn.vardecl(d)
@@ -373,8 +388,17 @@ class Expander:
             return self._pexp._decl_text(d, name)
         return "var:" + name
 
+    def _ncb(self, i, n):
+        # *it / it-> on a forward loop iterator is an element of the container
+        if n["k"] == "call" and n.get("op") in ("*", "->") and "recv" in n and not n.get("args"):
+            r = self.fn.nodes[self.fn.strip(n["recv"])]
+            if r["k"] == "ref" and r.get("decl") in self.itervars:
+                c = self.fn.text(self.itervars[r["decl"]], 0, self._cb, self._ncb)
+                return "elem(%s)" % c + ("->" if n["op"] == "->" else "")
+        return None
+
     def __call__(self, i):
-        return self.fn.text(i, 0, self._cb)
+        return self.fn.text(i, 0, self._cb, self._ncb)
 
 
 def stream_parts(fn, stream_text):
